@@ -14,7 +14,7 @@ Scen_A2 == {"A2"}
 (* depth 3: the calls that create sharing (algebra, field[name], resample), in-place steps, and the calls that read through it *)
 Acts_d3 == {"Norm", "FromField", "SetSub", "Neg", "Add", "GetSub", "Resample", "SelRange", "Pad", "FieldRotate90", "Translate", "MutateValid", "SetValidNorm", "UpdateConst", "H5", "Diff"}
 Acts_alias == {"Neg", "GetSub", "Resample", "Translate", "FieldRotate90", "MeshRotate90"}
-TransVs_def == {<<R(4), H(-3, 2), R(1)>>}
+TransVs_def == {<<R(4), H(-3, 2), R(1)>>, <<R(0), R(0), R(0)>>}    \* the zero vector is a vector like any other
 ScaleFs_q   == {<<R(2), R(2), R(2)>>}
 ScaleFs_all == {<<R(2), R(2), R(2)>>, <<H(1, 2), H(1, 2), H(1, 2)>>, <<R(-1), R(-1), R(-1)>>}
 RotKs_q     == {1, 2}
